@@ -682,6 +682,10 @@ type callee struct {
 	fn   *types.Func
 	decl *ast.FuncDecl
 	file *ast.File
+	// deferIssue: the body has defers the statement-context inliner cannot replay
+	// (conditional, or with arguments); such a helper can still be inlined in tail
+	// position or turned into a function literal
+	deferIssue bool
 }
 
 func fileOf(p *packages.Package, pos token.Pos) *ast.File {
@@ -767,10 +771,8 @@ func (n *normalizer) inlinable(c *callee, newcomers map[*types.Func]*callee) (ok
 				bad = "goto"
 			}
 		case *ast.DeferStmt:
-			if !top[x] {
-				bad = "conditional defer"
-			} else if len(x.Call.Args) != 0 || !isPureExpr(x.Call.Fun) {
-				bad = "defer with arguments"
+			if !top[x] || len(x.Call.Args) != 0 || !isPureExpr(x.Call.Fun) {
+				c.deferIssue = true
 			}
 		case *ast.Ident:
 			switch o := c.pkg.TypesInfo.Uses[x].(type) {
@@ -941,6 +943,10 @@ func identsIn(e ast.Node) map[string]bool {
 type condMode struct {
 	negated      bool
 	usedT, usedF bool
+	// tail: the call is the whole operand of a return statement, so the helper's
+	// body replaces that statement as it is: its returns and defers stay real
+	// returns and defers of the caller (they run at the same moments)
+	tail bool
 }
 
 func (n *normalizer) bodyText(c *callee, call *ast.CallExpr, tag string, cm ...*condMode) (text string, results []string, ok bool) {
@@ -962,6 +968,7 @@ func (n *normalizer) bodyText(c *callee, call *ast.CallExpr, tag string, cm ...*
 	var b strings.Builder
 	if cond != nil {
 		b.WriteString("{\n")
+	} else if false {
 	} else {
 		for i, r := range res {
 			fmt.Fprintf(&b, "var %s %s\n_ = %s\n", results[i], r.typ, results[i])
@@ -1083,6 +1090,9 @@ func (n *normalizer) bodyText(c *callee, call *ast.CallExpr, tag string, cm ...*
 	}
 	var defers []dinfo
 	for i, s := range fd.Body.List {
+		if cond != nil && cond.tail {
+			break
+		}
 		if d, isD := s.(*ast.DeferStmt); isD {
 			defers = append(defers, dinfo{i, printNode(fs, d.Call)})
 			fd.Body.List[i] = &ast.EmptyStmt{Implicit: false, Semicolon: d.Pos()}
@@ -1114,6 +1124,12 @@ func (n *normalizer) bodyText(c *callee, call *ast.CallExpr, tag string, cm ...*
 			case *ast.FuncLit:
 				return false
 			case *ast.ReturnStmt:
+				if cond != nil && cond.tail {
+					if len(x.Results) == 0 && len(res) > 0 {
+						failed = true // bare return of named results
+					}
+					return true
+				}
 				var t strings.Builder
 				t.WriteString("{\n")
 				if cond != nil {
@@ -1906,6 +1922,54 @@ func (n *normalizer) inlineRound() bool {
 				}
 				done++
 				changed = true
+				continue
+			}
+			if len(s.path) > 2 {
+				if rs, isRet := s.path[1].(*ast.ReturnStmt); isRet && len(rs.Results) == 1 && !usedStmt[rs] {
+					inList := false
+					switch up := s.path[2].(type) {
+					case *ast.BlockStmt:
+						for _, x := range up.List {
+							inList = inList || x == ast.Stmt(rs)
+						}
+					case *ast.CaseClause:
+						for _, x := range up.Body {
+							inList = inList || x == ast.Stmt(rs)
+						}
+					case *ast.CommClause:
+						for _, x := range up.Body {
+							inList = inList || x == ast.Stmt(rs)
+						}
+					}
+					if inList && c.fn.Type().(*types.Signature).Results().Len() > 0 {
+						n.seq++
+						tag := fmt.Sprintf("inl%d", n.seq)
+						if body, _, ok := n.bodyText(c, s.call, tag, &condMode{tail: true}); ok {
+							fname := n.fset.File(rs.Pos()).Name()
+							calleeFile := n.fset.File(c.decl.Pos()).Name()
+							txt := fmt.Sprintf("\n//line %s:%d\n%s//line %s:%d\n", calleeFile, n.fset.PositionFor(c.decl.Body.Lbrace, false).Line, body, fname, n.fset.PositionFor(rs.End(), false).Line)
+							if n.tryEdit(rs.Pos(), rs.End(), txt) {
+								usedStmt[rs] = true
+								done++
+								changed = true
+								continue
+							}
+						}
+					}
+				}
+			}
+			if c.deferIssue {
+				// only tail calls, go/defer statements and uses as a value can keep such defers
+				if kind, stmt, _ := stmtContext(s.path, s.call); kind == "lit" && !usedStmt[stmt] {
+					if txt, ok := n.litText(c, s.call); ok && n.tryEdit(s.call.Pos(), s.call.End(), txt) {
+						usedStmt[stmt] = true
+						done++
+						changed = true
+						continue
+					}
+				}
+				n.notes = append(n.notes, fmt.Sprintf("normalise: call of new function %s at %s left as it is (its defers cannot be replayed in this position)", short(c.fn.FullName()), n.fset.Position(s.call.Pos())))
+				other++
 				continue
 			}
 			if ifs, neg := condSite(s.path, s.call); ifs != nil && !usedStmt[ifs] && isBoolResult(c.fn) {
